@@ -18,7 +18,53 @@ type loopCtx struct {
 	sigma   string // its Lean type
 	rho     string // Lean type of what the code around the loop produces
 	closure bool   // the body is a closure (kind "visit"): a bare return ends the iteration
+	outer   map[*ast.Object]bool // the variables bound before the loop
+	state   map[*ast.Object]bool // those of them that are the loop's state
 }
+
+// rebinds: called wherever a variable is rebound by something other than a plain assignment (updating calls): inside
+// a loop, a variable from before the loop must be part of the loop's state — otherwise the update would be lost
+func (ft *ftrans) rebinds(o *ast.Object) {
+	for _, lc := range ft.loops {
+		if lc.outer[o] && !lc.state[o] {
+			failf("internal: %s is updated inside a loop but is not part of the loop's state", o.Name)
+		}
+	}
+}
+
+// looseUpdateTarget: as updateTarget, but when the receiver's type is not known yet (a variable declared inside the
+// loop) the callee is guessed by the method's name; used to find the state of a loop (a wrong guess only adds a
+// variable to the state)
+func (ft *ftrans) looseUpdateTarget(ce *ast.CallExpr, e env) *ast.Ident {
+	sel, ok := ce.Fun.(*ast.SelectorExpr)
+	if !ok {
+		return nil
+	}
+	if id, isID := sel.X.(*ast.Ident); isID && id.Obj == nil {
+		return nil
+	}
+	if ft.typeOfExpr(sel.X, e) != "" {
+		_, id := ft.updateTarget(ce, e)
+		return id
+	}
+	for _, cal := range ft.t.mod.Callees {
+		if cal.Kind != "update" || lastPart(cal.Go) != sel.Sel.Name {
+			continue
+		}
+		var tx ast.Expr = sel.X
+		if cal.Updates != nil {
+			if *cal.Updates < 0 || *cal.Updates >= len(ce.Args) {
+				continue
+			}
+			tx = ce.Args[*cal.Updates]
+		}
+		if id, ok := unparen(tx).(*ast.Ident); ok && id.Obj != nil {
+			return id
+		}
+	}
+	return nil
+}
+
 
 type nLoop struct {
 	rho, xs, pat, v, vt, r string
@@ -149,7 +195,7 @@ func (ft *ftrans) stateVars(body ast.Node, e env) []*ast.Object {
 		if !ok {
 			return true
 		}
-		if cal, target := ft.updateTarget(ce, e); cal != nil && target != nil {
+		if target := ft.looseUpdateTarget(ce, e); target != nil {
 			add(target.Obj)
 		}
 		if id := ft.mutReceiver(ce, e); id != nil {
@@ -206,6 +252,7 @@ func (ft *ftrans) updateAssign(lhs []ast.Expr, tok token.Token, ce *ast.CallExpr
 	if !ok || b.kind != bVar {
 		failf("the value updated by %s is not a plain local variable", cal.Go)
 	}
+	ft.rebinds(target.Obj)
 	sel := ce.Fun.(*ast.SelectorExpr)
 	var pre []prelude
 	recv := ft.expr(sel.X, e, &pre)
@@ -326,7 +373,13 @@ func (ft *ftrans) newLoop(list, vname, vt string, body []ast.Stmt, bodyNode ast.
 	if len(names) == 0 {
 		pat, sigma = "()", "Unit"
 	}
-	lc := &loopCtx{pat: pat, sigma: sigma, rho: ft.ctxType(), closure: closure}
+	lc := &loopCtx{pat: pat, sigma: sigma, rho: ft.ctxType(), closure: closure, outer: map[*ast.Object]bool{}, state: map[*ast.Object]bool{}}
+	for o := range e {
+		lc.outer[o] = true
+	}
+	for _, o := range state {
+		lc.state[o] = true
+	}
 	ft.loops = append(ft.loops, lc)
 	savedSwitch, savedJoin := ft.switchDepth, ft.joinDepth
 	ft.switchDepth, ft.joinDepth = 0, 0
@@ -797,6 +850,7 @@ func (ft *ftrans) mutCallStmt(ce *ast.CallExpr, e env, k cont) node {
 		failf("a receiver-updating call inside a loop of this form is outside the subset")
 	}
 	b := e[id.Obj]
+	ft.rebinds(id.Obj)
 	var pre []prelude
 	recv := ft.expr(id, e, &pre)
 	v := ft.callFn(g, &recv, ce.Args, e, &pre)
